@@ -109,6 +109,79 @@ def main(chk):
     if problems:
         chk.add([fam_result('translator validation', 'R', 'undecided', detail='; '.join(problems[:3]))])
     chk.add(run_jobs(jobs))
+    hs = [k_ema_seed(1, 4), k_ema_seed(3, 1), k_ema_seed(9, 1)]          # k_true_range: twin float subtractions do not finish in CBMC (240 s): not run
+    chk.add(kani.run_family_set('C02', hs, jobs=4, timeout_s=240 if q else 1200))
     chk.assumptions += ['f64 arithmetic modelled as exact real arithmetic in engine R', 'inputs bounded by 1e12, multiplier by 1000, periods by 1e6',
                         'smoothing factor symbolic: alpha = 2/(period+1) with period a symbolic integer, covering every period at once']
     chk.notes += ['rounding-error magnitude for full-range inputs', 'histories longer than t']
+
+
+# ------------------------------------------------------------------------------------------------ engine K
+from vlib import kani, native
+from vlib.kani import KB, KOps
+
+
+def k_ema_seed(p, t):
+    """first input returned unchanged for every f64 bit pattern; period 1 (alpha == 1 exactly) returns every finite input unchanged"""
+    b = KB('c02_ema_seed_p%d' % p, unwind=4, family='K:C02 EMA(%d): first output is the first input bit for bit (every f64)%s' % (p, '; alpha = 1: every finite input returned unchanged' if p == 1 else ''),
+           bounds=dict(engine='K', indicator='EMA', period=p, t=t, inputs='first input every f64 bit pattern; later inputs every finite f64'))
+    k = KOps(b)
+    k.new('a', 'EMA', [p])
+    x0 = b.anyf('x0')
+    o = k.feed('a', 'scalar', ('var', x0, ('sym', 'x0')))
+    b.emit('assert!(%s[0] == %s.to_bits(), "EMA does not return its first input unchanged");' % (o, x0))
+    idx = [(len(k.ops) - 1, 'x0')]
+    if p == 1:
+        b.emit('kani::assume(%s.is_finite());' % x0)
+        for i in range(1, t):
+            x = b.anyf('x%d' % i, finite=True)
+            o = k.feed('a', 'scalar', ('var', x, ('sym', 'x%d' % i)))
+            b.emit('assert!(f64::from_bits(%s[0]) == %s, "EMA(1) does not return its input");' % (o, x))
+            idx.append((len(k.ops) - 1, 'x%d' % i))
+
+    def confirm(vals):
+        ops = k.concrete(vals)
+        lines, res = kani.native_ops(ops)
+        for (j, tag) in idx:
+            want = kani.hexf(vals[tag])
+            r = res[j]
+            if r == 'panic' or not kani.same_f(r[0], want): return True, lines, 'EMA(%d) returned %r for input %r' % (p, r, want)
+        return False, lines, 'native agrees'
+    b.confirm = confirm
+    return b
+
+
+def k_true_range(t):
+    """TrueRange on bars == max(high-low, |high-prev close|, |low-prev close|) for every finite bar (comparisons and one subtraction level)"""
+    b = KB('c02_true_range_bars_t%d' % t, unwind=4, family='K:C02 TrueRange bars: the greatest of the three distances, every finite f64, %d bars' % t,
+           bounds=dict(engine='K', indicator='TRUE_RANGE', t=t, inputs='high, low, close every finite f64 (independent)'))
+    k = KOps(b)
+    k.new('a', 'TRUE_RANGE', [])
+    prev = None
+    idx = []
+    for i in range(t):
+        h, l, c = b.anyf('h%d' % i, finite=True), b.anyf('l%d' % i, finite=True), b.anyf('c%d' % i, finite=True)
+        o = k.feed('a', 'bar', [('lit', 1.0), ('var', h, ('sym', 'h%d' % i)), ('var', l, ('sym', 'l%d' % i)), ('var', c, ('sym', 'c%d' % i)), ('lit', 1.0)])
+        if prev is None:
+            b.emit('assert!(same(%s, [(%s - %s).to_bits(), 0, 0]), "first TrueRange is not high - low");' % (o, h, l))
+        else:
+            b.emit('{ let d1 = %s - %s; let d2 = (%s - %s).abs(); let d3 = (%s - %s).abs(); let r = f64::from_bits(%s[0]); '
+                   'kani::assume(d1.is_finite() && d2.is_finite() && d3.is_finite()); '
+                   'assert!(r >= d1 && r >= d2 && r >= d3 && (r == d1 || r == d2 || r == d3), "TrueRange is not the greatest of the three distances"); }' % (h, l, h, prev, l, prev, o))
+        idx.append(len(k.ops) - 1)
+        prev = c
+
+    def confirm(vals):
+        ops = k.concrete(vals)
+        lines, res = kani.native_ops(ops)
+        pc = None
+        for i, j in enumerate(idx):
+            h, l, c = [kani.hexf(vals['%s%d' % (f, i)]) for f in 'hlc']
+            r = res[j]
+            want = (h - l) if pc is None else max(h - l, abs(h - pc), abs(l - pc))
+            import math
+            if r == 'panic' or (math.isfinite(want) and r[0] != want): return True, lines, 'TrueRange bar %d: %r, expected %r' % (i + 1, r, want)
+            pc = c
+        return False, lines, 'native agrees'
+    b.confirm = confirm
+    return b
